@@ -88,6 +88,7 @@ inductive CdsOp where
   | numCodons       -- `num_chunk_relative_codons`
   | extract         -- `extract_sequence()`
   | validStop       -- `has_valid_stop`
+  | totalCodons     -- `num_codons` (codons of the WHOLE CDS in chromosome coordinates, also on a sequence chunk)
   deriving DecidableEq, Repr, Inhabited
 
 def isStopCodon (c : List Char) : Bool :=
@@ -95,16 +96,19 @@ def isStopCodon (c : List Char) : Bool :=
 
 def lastThree (l : List Char) : List Char := l.drop (l.length - 3)
 
-/-- what a fresh CDS whose in-frame coding sequence is `letters` answers to one question -/
-def freshAns (letters : List Char) : CdsOp → Ans
-  | .listCodons => .count (letters.length / 3)
-  | .numCodons => .count (letters.length / 3)
+/-- what a fresh CDS answers to one question; `letters` = its in-frame coding sequence as seen on its parent (the part
+    inside the chunk for a chunk-relative CDS), `chunkCodons` = number of codon locations inside the chunk,
+    `totalCodons` = number of codons of the whole CDS -/
+def freshAns (letters : List Char) (chunkCodons totalCodons : Nat) : CdsOp → Ans
+  | .listCodons => .count chunkCodons
+  | .numCodons => .count chunkCodons
+  | .totalCodons => .count totalCodons
   | .extract => .seqObj letters
   | .validStop => .bool (isStopCodon (lastThree (letters.map Char.toUpper)))
 
 /-- `cdshist` operation: every step answers what the fresh object answers (value and type). -/
-def okCdsHist (letters : List Char) (hist : List CdsOp) (answers : List Ans) : Bool :=
-  decide (answers = hist.map (freshAns letters))
+def okCdsHist (letters : List Char) (chunkCodons totalCodons : Nat) (hist : List CdsOp) (answers : List Ans) : Bool :=
+  decide (answers = hist.map (freshAns letters chunkCodons totalCodons))
 
 /-! ### qualifier dictionaries (keys and values interned as numbers) -/
 
